@@ -186,6 +186,79 @@ def run_ops(res, tier, drv, constructed):
             res.inconc("solver inconclusive on operator %s" % name)
         rows.append(row)
         res.sample(row, cap=20)
+    # ---- identity comparisons: a value of pointer type against a data-free variant / another pointer --------
+    # A pointer-typed value is, in the TypeScript back end, either a number 2p+1 (the i31 p) or an array (a struct);
+    # in the WebAssembly back end an i31 or a struct reference.  JS loose equality coerces an object operand:
+    # `[m] == k` is `m == k` for a one-element array holding a number (ToPrimitive -> "m" -> ToNumber).
+    import subprocess
+    for r_ in [r for r in drv.optable() if "ref_cmp" in r]:
+        opname = r_["ref_cmp"]
+        if "ref.eq" not in r_["wat"]:
+            raise Inconclusive("identity comparison is no longer lowered to ref.eq: %r" % r_["wat"])
+        wat_negated = "i32.xor" in r_["wat"] or "i32.eqz" in r_["wat"]
+        if (opname == "!=") != wat_negated:
+            raise Inconclusive("unexpected WAT template for %s: %r" % (opname, r_["wat"]))
+        for form, ts in (("literal", r_["ts_literal"]), ("vars", r_["ts_vars"])):
+            mt = re.match(r"^\s*let r = Number\(a (===|!==|==|!=) (\w+)\);\s*$", ts)
+            if not mt:
+                raise Inconclusive("unexpected TS template for an identity comparison: %r" % ts)
+            jsop, rhs = mt.group(1), mt.group(2)
+            # operand model: kind 0 = number (i31), 1 = one-element array [number], 2 = any other object (identity `id`)
+            ka, va, ia = z3.Int("ka"), z3.Int("va"), z3.Int("ia")
+            kb, vb, ib = z3.Int("kb"), z3.Int("vb"), z3.Int("ib")
+            side = [ka >= 0, ka <= 2, kb >= 0, kb <= 2, z3.Implies(ka == 0, va % 2 == 1), z3.Implies(kb == 0, vb % 2 == 1),
+                    # distinct objects have distinct identities; the same object has the same content
+                    z3.Implies(z3.And(ka != 0, kb != 0, ia == ib), z3.And(ka == kb, va == vb))]
+            if form == "literal":
+                side += [kb == 0, vb == int(rhs)]
+            loose = z3.If(z3.And(ka == 0, kb == 0), va == vb,
+                          z3.If(z3.And(ka != 0, kb != 0), ia == ib,
+                                z3.If(ka == 1, z3.And(kb == 0, va == vb), z3.If(kb == 1, z3.And(ka == 0, va == vb), False))))
+            strict = z3.If(z3.And(ka == 0, kb == 0), va == vb, z3.If(z3.And(ka != 0, kb != 0), ia == ib, False))
+            js_eq = loose if jsop in ("==", "!=") else strict
+            js_val = js_eq if jsop in ("==", "===") else z3.Not(js_eq)
+            wasm_eq = z3.If(z3.And(ka == 0, kb == 0), va == vb, z3.If(z3.And(ka != 0, kb != 0), ia == ib, False))
+            wasm_val = z3.Not(wasm_eq) if wat_negated else wasm_eq
+            obligations += 1
+            s_ = z3.Solver()
+            s_.add(*side)
+            s_.add(js_val != wasm_val)
+            rr = s_.check()
+            smt.STATS["queries"] += 1
+            row = {"operator": "identity %s (%s)" % (opname, form), "ts": ts.strip(), "wat": r_["wat"], "verdict": str(rr)}
+            if rr == z3.unsat:
+                discharged += 1
+                smt.STATS["unsat"] += 1
+            elif rr == z3.sat:
+                smt.STATS["sat"] += 1
+                m = s_.model()
+                g = lambda v: m.eval(v, model_completion=True).as_long()
+                def js_lit(k, v):
+                    return str(v) if k == 0 else ("[%d]" % v if k == 1 else "[%d, 0]" % v)
+                a_js, b_js = js_lit(g(ka), g(va)), js_lit(g(kb), g(vb))
+                if g(ka) != 0 and g(kb) != 0 and g(ia) == g(ib):
+                    prog = "const a = %s; const b = a;" % a_js
+                else:
+                    prog = "const a = %s; const b = %s;" % (a_js, b_js)
+                prog += " const %s = b; console.log(Number(a %s %s));" % ("_unused" if form == "vars" else "_k", jsop, "b")
+                out = subprocess.run(["node", "-e", prog], capture_output=True, text=True, timeout=30).stdout.strip()
+                want = "1" if z3.is_true(m.eval(js_val, model_completion=True)) else "0"
+                row.update({"a": a_js, "b": b_js, "node_prints": out, "model_says_ts": want,
+                            "wasm": 1 if z3.is_true(m.eval(wasm_val, model_completion=True)) else 0})
+                if out != want:
+                    res.inconc("identity comparison %s: the JS coercion model disagrees with node on `%s %s %s`" % (opname, a_js, jsop, b_js))
+                else:
+                    kn = [k for k in known if k.get("id") and k.get("operator") == "identity " + opname]
+                    if kn:
+                        res.known("%s %s" % (kn[0]["id"], kn[0]["short"]))
+                    else:
+                        res.violation("TS and WASM disagree on the identity comparison `%s %s %s`: TypeScript gives %s (node), ref.eq gives %d"
+                                      % (a_js, jsop, b_js, out, row["wasm"]),
+                                      {"property": "C04", "operator": "identity " + opname, "ts": ts, "wat": r_["wat"], **row})
+            else:
+                res.inconc("solver inconclusive on identity comparison %s" % opname)
+            rows.append(row)
+            res.sample(row, cap=30)
     return {"operator_obligations": obligations, "operator_discharged": discharged, "operators": rows}
 
 
